@@ -194,11 +194,10 @@ impl Observer for Obs {
             self.ab[mi] = got;
         }
         // precedence: with no limits or budgets in the way, the action returned for a machine after its
-        // last delivery of the call is that of the innermost state of the chain of entered states
-        // (CounterZero handled immediately, its action wins over the entered state's). With earlier
-        // deliveries to the machine in the same call only the case in which the innermost
-        // CounterZero-entered state defines an action is judged (it is certainly scheduled, and
-        // nothing scheduled later in that delivery may replace it).
+        // last delivery of the call is that of the innermost state of the chain of entered states that
+        // defines one (CounterZero handled immediately; an action scheduled by the CounterZero transition
+        // wins over the entered state's, and otherwise the entered state's action is scheduled) -- also
+        // when earlier deliveries of the same call left an action pending for the machine.
         for mi in 0..n {
             let mach = &c.cfg.machines[mi];
             let ds: Vec<_> = dl.iter().filter(|d| d.machine == mi).collect();
@@ -216,13 +215,9 @@ impl Observer for Obs {
             if chain.iter().any(|t| mach.states[*t].action.map(|a| crate::spec::has_limit(&a)).unwrap_or(false)) {
                 continue;
             }
-            // with earlier deliveries: the delivery must end with the entry into the innermost state
-            // (a further nested CounterZero, e.g. to END, is judged against a possibly pending earlier action)
-            let ends_with_entry = steps[d.end - 1].live && steps[d.end - 1].target == chain.last().copied();
-            if ds.len() > 1 && !ends_with_entry {
-                continue;
-            }
-            let expect = if ds.len() == 1 { chain.iter().rev().find_map(|t| mach.states[*t].action) } else { mach.states[*chain.last().unwrap()].action };
+            // the innermost state of the chain that defines an action wins; an action still pending from an
+            // earlier delivery of the same call is not "an action scheduled by the CounterZero transition"
+            let expect = chain.iter().rev().find_map(|t| mach.states[*t].action);
             let got = c.actions.iter().find(|a| a.machine() == mi);
             match (expect, got) {
                 (Some(e), Some(g)) => {
